@@ -126,12 +126,12 @@ def jobs(tier, seed):
     cfgs = [JS] if tier == "quick" else [JS, CM]
     k = 2 if tier == "quick" else 3
     for cfg in cfgs:
-        for cb in CONC_B:
+        for cb in (CONC_B if tier == "thorough" else CONC_B[:4]):
             jobs.append({"harness": "concat", "params": {"cfg": cfg, "a": free_doc(k, "\n"), "b": [cb], "spec": spec, "name": "freeA"},
                          "weight": 8 if tier == "quick" else 30, "cpu_cap": 1500, "wall_cap": 2400})
         for name, sa in A_MENU:
             fb = [{"v": "cdefgh"[i]} for i in range(k)] + ["\n"]
-            if tier == "quick" and name in ("olist", "list-code", "hr", "code"):
+            if tier == "quick" and name not in ("para", "tight-list", "quote-lazy", "setext", "table", "nested"):
                 continue
             jobs.append({"harness": "concat", "params": {"cfg": cfg, "a": [p if isinstance(p, str) else "x" for p in sa], "b": fb,
                                                           "spec": spec, "name": f"freeB-{name}"},
@@ -140,7 +140,7 @@ def jobs(tier, seed):
             for bn, sb in B_MENU:
                 if tier == "quick":
                     # one free character (in A), B concrete
-                    if bn not in ("para", "list", "quote", "setext"):
+                    if bn not in ("para", "list"):
                         continue
                     sb2 = [p if isinstance(p, str) else "y" for p in sb]
                     jobs.append({"harness": "concat", "params": {"cfg": cfg, "a": sa, "b": sb2, "spec": spec, "name": f"{an}+{bn}"},
